@@ -394,6 +394,34 @@ def many_trials(n: int, which: int) -> bool:
   return finish(ok, (n, which), obs=None if ok else [str(outs[0])[:300], str(outs[1])[:300]])
 
 
+def many_operations(n: int, complete: bool) -> bool:
+  """
+  pre: 8 <= n <= 13
+  post: _
+  """
+  n, complete = conc(n, 8, 13), cbool(complete)
+  with NoTracing():
+    ram = svc.new_servicer()
+    sql = svc.new_servicer(database_url='sqlite:///:memory:')
+    outs = []
+    for sv in (ram, sql):
+      svc.add_study(sv, state=1)
+      seq = []
+      for k in range(n):     # one worker asks again and again (its operations are numbered 1, 2, ..., 10, 11, ...)
+        r, e = svc.call(sv.SuggestTrials, vs.SuggestTrialsRequest(parent=S, suggestion_count=1, client_id='w'))
+        seq.append((svc.classify(e), _obs(r)))
+        if complete and r is not None and r.HasField('response'):
+          for t in vs.SuggestTrialsResponse.FromString(r.response.value).trials:
+            req = vs.CompleteTrialRequest(name=t.name)
+            req.final_measurement.metrics.add(metric_id='m', value=float(k))
+            seq.append(svc.classify(svc.call(sv.CompleteTrial, req)[1]))
+      ops = sorted((o.name, o.done) for o in sv.datastore.list_suggestion_operations(S, 'w'))
+      outs.append((seq, ops, svc.abstract(sv)))
+    ok = outs[0] == outs[1] and all(c == svc.OK for c, _ in [x for x in outs[0][0] if isinstance(x, tuple)])
+  reach('many_operations')
+  return finish(ok, (n, complete), obs=None if ok else [str(outs[0][0][-2:])[:300], str(outs[1][0][-2:])[:300]])
+
+
 def delete_and_recreate(t1: int, n_ops: int, who: bool) -> bool:
   """
   pre: 0 <= t1 <= 5 and 0 <= n_ops <= 2
